@@ -50,11 +50,44 @@ fn arm(kind: &str, payload: &str, payload_ty: &Ty, tag: &str, h: &mut gen::Helpe
             ws.push((n.clone(), Ty::Bool, Val::Bool(false)));
             (vec![Stmt::Expr(match_(Expr::Witness(n), (MPat::True, block(s1, None)), (MPat::False, block(s2, None))))], ws)
         }
+        k if k.starts_with("array-") => {
+            // an arm-local array witness of awkward length, destructured; first and last element checked
+            // "array-<bits>-<len>"
+            let mut it = k.split('-').skip(1);
+            let bits: u16 = it.next().unwrap().parse().unwrap();
+            let len: usize = it.next().unwrap().parse().unwrap();
+            let n = w("Y");
+            let ty = Ty::arr(Ty::U(bits), len);
+            let names: Vec<String> = (0..len).map(|i| format!("e{tag}{i}")).collect();
+            let val = Val::Array((0..len).map(|i| Val::u(bits, (i as u128 * 3 + 1) % 200)).collect());
+            let stmts = vec![
+                let_(Pat::Array(names.iter().map(|x| Pat::Id(x.clone())).collect()), ty.clone(), Expr::Witness(n.clone())),
+                Stmt::Expr(assert_(jet(&format!("eq_{bits}"), vec![var(&names[0]), dec(1)]))),
+                Stmt::Expr(assert_(jet(&format!("eq_{bits}"), vec![var(&names[len - 1]), dec(((len - 1) as u128 * 3 + 1) % 200)]))),
+            ];
+            (stmts, vec![(n, ty, val)])
+        }
+        "tuple-5" => {
+            let n = w("Z");
+            let ty = Ty::tup(vec![Ty::U(8), Ty::U(16), Ty::U(8), Ty::U(32), Ty::U(8)]);
+            let val = Val::Tuple(vec![Val::u(8, 1), Val::u(16, 2), Val::u(8, 3), Val::u(32, 4), Val::u(8, 5)]);
+            let names: Vec<String> = (0..5).map(|i| format!("t{tag}{i}")).collect();
+            let stmts = vec![
+                let_(Pat::Tuple(names.iter().map(|x| Pat::Id(x.clone())).collect()), ty.clone(), Expr::Witness(n.clone())),
+                Stmt::Expr(assert_(jet("eq_8", vec![var(&names[0]), dec(1)]))),
+                Stmt::Expr(assert_(jet("eq_8", vec![var(&names[4]), dec(5)]))),
+            ];
+            (stmts, vec![(n, ty, val)])
+        }
         other => panic!("unknown arm kind {other}"),
     }
 }
 
-const ARM_KINDS: [&str; 9] = ["eq-witness", "lock-height-witness", "lock-height-const", "lock-distance-const", "lock-time-witness", "panic", "nothing", "unused-witness", "nested"];
+const ARM_KINDS: [&str; 14] = [
+    "eq-witness", "lock-height-witness", "lock-height-const", "lock-distance-const", "lock-time-witness", "panic", "nothing", "unused-witness", "nested",
+    // wide / awkwardly sized witnesses inside an arm: byte strings just above one and two 256-bit words, odd lengths
+    "array-8-33", "array-8-65", "array-16-5", "array-8-48", "tuple-5",
+];
 
 struct Branchy {
     text: String,
